@@ -26,7 +26,7 @@ RULE = ("seeded models (vlib.spec.Gen, depth<=2, lookups/delay/smooth/step) x ru
 ASSUMPTIONS = ["a setting passed with step k holds from t_k on (the stock at t_k was integrated with the old value)",
                "run-steps(n) passes the same settings to each of its n steps; stream-steps likewise",
                "JSON numeric keys are compared as floats"]
-REQUIRED = {"restores_between_blocks": 10, "lookback_cases": 5, "python_steps": 200, "rest_requests": 300, "cells_compared": 5000, "channel_pairs": 300}
+REQUIRED = {"multi_scenario_steps": 50, "restores_between_blocks": 10, "lookback_cases": 5, "python_steps": 200, "rest_requests": 300, "cells_compared": 5000, "channel_pairs": 300}
 BUDGET_S = {"quick": 110, "thorough": 1500}
 
 RUNS = [("0", "1"), ("0", "0.5"), ("1", "0.25"), ("0", "0.1"), ("3", "0.5"), ("2", "0.2"), ("1", "1"), ("0", "0.25"), ("8", "1"), ("9", "0.5"), ("98", "1")]   # incl. session clocks that cross 10 and 100
@@ -305,6 +305,64 @@ def run_case(case):
                     w["schedule_used"] = {str(kk): v for kk, v in psched.items()}
             for inst in list(app._instance_manager._instances.values()):
                 opened.append(inst["instance"])
+        # ---- one session over two scenarios of a manager and over two managers that both own a scenario called "base": step settings
+        #      that name one scenario reach that scenario only; nested and flat step results report every (manager, scenario) separately
+        consts0 = [e for e in sp["elements"] if e["kind"] == "constant"]
+        if w is None and case["seed"] % 2 == 0 and consts0:
+            cname, cval = consts0[0]["name"], float(consts0[0]["value"])
+            sp_two, sp_n = copy.deepcopy(sp), copy.deepcopy(sp)
+            for e in sp_two["elements"]:
+                if e["name"] == cname:
+                    e["value"] = cval * 2.0 + 0.5
+            for e in sp_n["elements"]:
+                if e["name"] == cname:
+                    e["value"] = cval - 1.25
+            try:
+                t_two, t_n = refsd.Ref(sp_two).table(), refsd.Ref(sp_n).table()
+                usable = True
+            except (X.IllConditioned, RecursionError):
+                usable = False
+            if usable:
+                def factory3():
+                    m, _ = S.build_dsl(sp, name="m")
+                    mn, _ = S.build_dsl(sp_n, name="n")
+                    b = bptk()
+                    b.register_model(m, scenario_manager=MG, scenario={"base": {}, "two": {"constants": {cname: cval * 2.0 + 0.5}}})
+                    b.register_model(mn, scenario_manager="smN")          # its default scenario is called "base", too
+                    return b
+                b5 = factory3()
+                opened.append(b5)
+                b5.begin_session(scenarios=["base", "two"], scenario_managers=[MG, "smN"], equations=list(req), starttime=start, dt=dt)
+                got = {(mg, sc): {e: {} for e in req} for (mg, sc) in ((MG, "base"), (MG, "two"), ("smN", "base"))}
+                for k in range(n + 1):
+                    st = sched.get(k)
+                    settings = None if st is None else {MG: {"base": copy.deepcopy(st)}}          # names the first scenario only
+                    flat = bool(k % 2)
+                    r = b5.run_step(settings=settings, flat=flat) if settings is not None else b5.run_step(flat=flat)
+                    counters["python_steps"] = counters.get("python_steps", 0) + 1
+                    counters["multi_scenario_steps"] = counters.get("multi_scenario_steps", 0) + 1
+                    if r is None or "msg" in r:
+                        w = dict(kind="session-ended-early", step=k, result=r, where="multi-scenario session")
+                        break
+                    for (mg, sc) in got:
+                        for e in req:
+                            try:
+                                cell = r[mg][sc][e]
+                            except (KeyError, TypeError):
+                                w = dict(kind="missing-in-step-result", manager=mg, scenario=sc, equation=e, flat=flat, result=str(r)[:300])
+                                break
+                            if flat:
+                                got[(mg, sc)][e][times[k]] = float(cell)
+                            else:
+                                for t, v in cell.items():
+                                    got[(mg, sc)][e][float(t)] = float(v)
+                        if w:
+                            break
+                    if w:
+                        break
+                for (mg, sc), tab in (((MG, "base"), table), ((MG, "two"), t_two), (("smN", "base"), t_n)):
+                    for e in req:
+                        w = w or cmp_series("multi-scenario session %s/%s:%s" % (mg, sc, e), got[(mg, sc)][e], times, tab[e], counters)
         # ---- a scenario whose dt differs from its model's dt (runspecs at scenario level): sessions opened without an
         #      explicit dt, on a bptk that has not run anything yet, must step on the scenario's grid like the batch run does
         if w is None and case["seed"] % 3 == 0:
